@@ -289,7 +289,7 @@ def run_C12(ctx, E):
 # ------------------------------------------------------------------ C11
 def run_C11(ctx, E):
     ctx.exhaustive = True
-    stage_mc_replay(ctx, E, "upper", "C11_MC", "C11_MC_%s.cfg" % ctx.tier, cold=60 if ctx.tier == "quick" else 300)
+    stage_mc_replay(ctx, E, "upper", "C11_MC", "C11_MC_%s.cfg" % ctx.tier, cold=200 if ctx.tier == "quick" else 600)
     stage_mc_replay(ctx, E, "mixedU", "C11_MC", "C11_MC_%s_mixed.cfg" % ctx.tier)
     stage_record_trace(ctx, E, "calls", "C11_Trace", "C11_Trace.cfg", heap="8g")
 
